@@ -54,6 +54,9 @@ def invT (P : Params) (u v w : Int) (case : Nat) : Int :=
   else if case &&& 5 = 4 then w * (u * ((1 - P.c) % p) % p * P.inv2 + v) % p
   else -w * (u * ((1 + P.c) % p) % p * P.inv2 + v) % p
 
+/-- `return t or None`: the forward map reads `t = 0` as 1, so 0 is never answered as a preimage -/
+def tOrNone (t : Int) : Option Int := if t = 0 then none else some t
+
 /-- `_xswiftec_inv_var`: `some none` = the case has no preimage, `none` = the code raises -/
 def xswiftecInv (P : Params) (x u : Int) (case : Nat) : Option (Option Int) :=
   let p := P.p
@@ -67,7 +70,7 @@ def xswiftecInv (P : Params) (x u : Int) (case : Nat) : Option (Option Int) :=
       let s := -(u ^ 3 % p + P.b) * i % p
       match modSqrt34 s p with
       | none => some none
-      | some w => some (some (invT P u x w case))
+      | some w => some (tOrNone (invT P u x w case))
   else
     let s := (x - u) % p
     if s = 0 then some none else
@@ -81,6 +84,6 @@ def xswiftecInv (P : Params) (x u : Int) (case : Nat) : Option (Option Int) :=
         let v := (-u + r * si) * P.inv2 % p
         match modSqrt34 s p with
         | none => some none
-        | some w => some (some (invT P u v w case))
+        | some w => some (tOrNone (invT P u v w case))
 
 end Btc.C16.Swift
